@@ -167,12 +167,16 @@ fn defaults<const P: usize, const OPT: bool>() {
 }
 
 #[kani::proof]
+#[kani::stub(std::mem::drop, crate::lhs_types::verif_kani::common::mem_drop__releases_nothing_observable)]
+#[kani::stub(<crate::types::LhsValue as std::clone::Clone>::clone, lhs_value_clone__contract_scalar)]
 #[kani::unwind(4)]
 fn simple_function_compile__defaults_p1() {
     defaults::<1, true>()
 }
 
 #[kani::proof]
+#[kani::stub(std::mem::drop, crate::lhs_types::verif_kani::common::mem_drop__releases_nothing_observable)]
+#[kani::stub(<crate::types::LhsValue as std::clone::Clone>::clone, lhs_value_clone__contract_scalar)]
 #[kani::unwind(4)]
 fn simple_function_compile__defaults_p2() {
     defaults::<2, true>()
